@@ -315,7 +315,7 @@ def _run_pool(sh, ctx, gc, KmerSpec):
 	gc.calc_file_signature = _delayed_calc
 	try:
 		for r in range(sh['runs']):
-			n = rng.choice([1, 2, 3, 8, 20, 40]) if not sh.get('yield_injection') else rng.choice([4, 8, 12])
+			n = rng.choice([1, 2, 3, 8, 20, 40, 70]) if not sh.get('yield_injection') else rng.choice([4, 8, 12])
 			skew = rng.random() < 0.4 and mode is not None and not sh.get('yield_injection')
 			spec = SPECS[(r + sh['sub']) % len(SPECS)]
 			ks = KmerSpec(spec[0], spec[1])
